@@ -315,6 +315,47 @@ func histReplay(in io.Reader, raw bool, args []string) (*Summary, error) {
 			}
 			deviated = true
 		}
+		// the floats next to the two ends of the range, on a fresh histogram of the same shape: "values within rounding
+		// distance of an edge may fall on either side" - but exactly one counter moves, and it is one of the two adjacent ones
+		func() {
+			var fresh stats.Histogram
+			var lo, hi float64
+			if sh.Kind == "lin" {
+				lo, hi = float64(sh.Min)/float64(sh.Unit), float64(sh.Max)/float64(sh.Unit)
+				fresh = stats.NewLinearHist(lo, hi, sh.NBins)
+			} else {
+				lo, hi = 1, math.Pow(float64(sh.B), float64(sh.NBins)/float64(sh.M))
+				fresh = stats.NewLogHist(sh.B, float64(sh.M), math.Pow(float64(sh.B), (float64(sh.NBins)-0.5)/float64(sh.M)))
+			}
+			probe := func(x float64, okUnder, okFirst, okLast, okOver bool) {
+				defer func() {
+					if r := recover(); r != nil {
+						sum.viol("Add-panic", c, "Add(%v) next to the end of the range panics: %v", x, r)
+					}
+				}()
+				u0, b0, o0 := fresh.Counts()
+				b0 = append([]uint{}, b0...)
+				fresh.Add(x)
+				u1, b1, o1 := fresh.Counts()
+				du, do := int(u1-u0), int(o1-o0)
+				dFirst, dLast, dOther := int(b1[0]-b0[0]), int(b1[len(b1)-1]-b0[len(b0)-1]), 0
+				for i := 1; i+1 < len(b1); i++ {
+					dOther += int(b1[i] - b0[i])
+				}
+				if len(b1) == 1 {
+					dLast = 0 // the only bin is counted as "first"
+				}
+				total := du + do + dFirst + dLast + dOther
+				sum.Checks++
+				if total != 1 || dOther != 0 || (du == 1 && !okUnder) || (dFirst == 1 && !okFirst && !(len(b1) == 1 && okLast)) || (dLast == 1 && !okLast) || (do == 1 && !okOver) {
+					sum.viol("Add-bin", c, "Add(%v) next to the end of the range moved counters by under %+d first %+d last %+d over %+d others %+d", x, du, dFirst, dLast, do, dOther)
+				}
+			}
+			probe(math.Nextafter(hi, math.Inf(-1)), false, false, true, true)
+			probe(math.Nextafter(hi, math.Inf(1)), false, false, true, true)
+			probe(math.Nextafter(lo, math.Inf(-1)), true, true, false, false)
+			probe(math.Nextafter(lo, math.Inf(1)), true, true, false, false)
+		}()
 		// BinToValue: lower edges, interpolation, monotone
 		prev := math.Inf(-1)
 		for _, t := range []*big.Rat{big.NewRat(0, 1), big.NewRat(1, 2), big.NewRat(1, 1), big.NewRat(5, 4), big.NewRat(int64(sh.NBins), 1)} {
